@@ -50,12 +50,14 @@ def embed_record(pre: str, s: str, ml: bool, suf: str, o: dict) -> dict:
             'sig': {'kind': 'embed', 'action': 'escape_text+tokenize', 'ml': ml, 'chars': classes(s)}}
 
 
-def line_record(writer: str, text: str, idx: int, s: str, o: dict) -> dict:
-    out = toklib.tokenize(text, o)
-    return {'k': 'line', 'writer': writer, 'text': cps(text), 'idx': idx, 's': cps(s), 'o': o,
-            'fold': toklib.fold_table(text),
+def line_record(writer: str, ln: dict) -> dict:
+    out = toklib.tokenize(ln['text'], ln['o'])
+    parts = writer.split('/')
+    return {'k': 'line', 'writer': writer, 'text': cps(ln['text']), 'idx': ln['idx'], 'ntoks': ln['ntoks'],
+            's': cps(ln['tokval']), 'field': cps(ln['s']), 'o': ln['o'], 'fold': toklib.fold_table(ln['text']),
             'toks': out['toks'], 'err': out['err'], 'etype': out['etype'], 'msg': out['msg'],
-            'sig': {'kind': 'line', 'action': writer, 'chars': classes(s)}}
+            'sig': {'kind': 'line', 'action': parts[0], 'field': parts[1], 'variant': '/'.join(parts[2:]),
+                    'writer': writer, 'chars': classes(ln['s'])}}
 
 
 def rand_char(rng: random.Random) -> str:
@@ -128,60 +130,209 @@ def ascii_only(s: str) -> str:
     return ''.join(c for c in s if ord(c) < 128)
 
 
-def writer_line(writer: str, s: str) -> tuple:
-    """-> (text written by the real writer with s as a value, index (1-based) of the token that must be s)."""
+PROBE = 'c02probe'
+ESC_SEP = '\x1b'
+
+
+def _ent_text(ent) -> str:
+    buf = io.StringIO()
+    ent.export(buf, ind='')
+    return buf.getvalue()
+
+
+def _bsp_text(vmf, use_comma_sep) -> str:
+    from srctools.bsp import BSP
+    return BSP.write_ent_data(vmf, use_comma_sep, _show_dep=False).decode('ascii', 'surrogateescape')
+
+
+def _output(field: str, s: str, comma: bool):
+    from srctools.vmf import Output
+    vals = {'out': 'OnTrigger', 'target': 'relay', 'input': 'Trigger', 'params': 'par'}
+    vals[field] = s
+    return Output(vals['out'], vals['target'], vals['input'], vals['params'], comma_sep=comma), vals
+
+
+def _output_expect(field: str, s: str, sep: str) -> str:
+    """The token the field is part of: the output name alone, or the whole value string."""
+    vals = {'out': 'OnTrigger', 'target': 'relay', 'input': 'Trigger', 'params': 'par'}
+    vals[field] = s
+    if field == 'out':
+        return s
+    return sep.join([vals['target'], vals['input'], vals['params'], '0', '-1'])
+
+
+def _dmx_text(elem) -> str:
+    buf = io.BytesIO()
+    elem.export_kv2(buf, 'dmx', 1, unicode='silent')
+    data = buf.getvalue()
+    return data[data.index(b'\n') + 1:].decode('utf8')     # the <!-- dmx ... --> header is not token text
+
+
+def positions() -> dict:
+    """Every place of the pinned tree that embeds escape_text(...) in a quoted run.
+    name -> (build(s) -> written text, expect(s) -> value of the token s is part of, tokenizer
+    options of the reader, restrict(s) -> s limited to what the field's own format can carry)."""
+    from srctools.dmx import Element
     from srctools.keyvalues import Keyvalues
-    from srctools.vmf import VMF, Entity
-    if writer == 'Keyvalues.export':
+    from srctools.math import Vec
+    from srctools.vmf import VMF, Cordon, Entity, Side, VisGroup
+    kv, tk = toklib.KV_OPTS, toklib.TOK_DEFAULTS
+
+    def ident(x):
+        return x
+
+    def kv_export(kvobj):
         with warnings.catch_warnings():
             warnings.simplefilter('ignore')
-            return ''.join(Keyvalues('name', s).export()), 2
-    if writer == 'Keyvalues.serialise':
-        return Keyvalues('name', s).serialise(), 2
-    if writer == 'Keyvalues.serialise(name)':       # the string as the NAME of a leaf
-        return Keyvalues(s, 'value').serialise(), 1
-    if writer == 'Entity.export':
-        vmf = VMF()
-        ent = Entity(vmf, keys={'classname': 'info_target', 'message': s})
+            return ''.join(kvobj.export())
+
+    def ent_with(**kw):
+        return Entity(VMF(), **kw)
+
+    def ent_out(field, comma):
+        def build(x):
+            ent = ent_with(keys={'classname': 'logic_relay'})
+            ent.add_out(_output(field, x, comma)[0])
+            return _ent_text(ent)
+        return build
+
+    def bsp_out(field, comma, force):
+        def build(x):
+            vmf = VMF()
+            ent = vmf.create_ent('logic_relay')
+            ent.add_out(_output(field, x, comma)[0])
+            return _bsp_text(vmf, force)
+        return build
+
+    def fixup_build(x):
+        ent = ent_with(keys={'classname': 'func_instance'})
+        ent.fixup['var'] = x
+        return _ent_text(ent)
+
+    def side_build(x):
         buf = io.StringIO()
-        ent.export(buf, ind='')
-        toks = toklib.tokenize(buf.getvalue(), toklib.KV_OPTS)['toks']
-        idx = next((i for i, t in enumerate(toks) if t['t'] == 'STRING' and t['v'] == cps('message')), None)
-        if idx is None:
-            raise SystemExit('MACHINERY: VMF entity export has no "message" key')
-        return buf.getvalue(), idx + 2
-    if writer == 'BSP.write_ent_data':               # multiline escaping, ASCII bytes
-        from srctools.bsp import BSP
+        Side(VMF(), [Vec(0, 0, 0), Vec(1, 0, 0), Vec(0, 1, 0)], mat=x).export(buf, '')
+        return buf.getvalue()
+
+    def cordon_build(x):
+        buf = io.StringIO()
+        Cordon(VMF(), Vec(0, 0, 0), Vec(1, 1, 1), name=x).export(buf, '')
+        return buf.getvalue()
+
+    def vis_build(x):
+        buf = io.StringIO()
+        VisGroup(VMF(), x).export(buf, '')
+        return buf.getvalue()
+
+    def bsp_key(x):
         vmf = VMF()
-        vmf.create_ent('info_target', message=s)
-        text = BSP.write_ent_data(vmf, _show_dep=False).decode('ascii', 'surrogateescape')
-        toks = toklib.tokenize(text, toklib.TOK_DEFAULTS)['toks']
-        idx = next((i for i, t in enumerate(toks) if t['t'] == 'STRING' and t['v'] == cps('message')), None)
-        if idx is None:
-            raise SystemExit('MACHINERY: entity lump has no "message" key')
-        return text, idx + 2
-    raise SystemExit(f'MACHINERY: unknown writer {writer}')
+        vmf.add_ent(Entity(vmf, keys={x: 'keyvalue'}))
+        return _bsp_text(vmf, None)
+
+    def bsp_val(x):
+        vmf = VMF()
+        vmf.create_ent('info_target', message=x)
+        return _bsp_text(vmf, None)
+
+    def dmx_attr_name(x):
+        e = Element('elem', 'DmElement')
+        e[x] = 'attrvalue'
+        return _dmx_text(e)
+
+    def dmx_attr_val(x):
+        e = Element('elem', 'DmElement')
+        e['text'] = x
+        return _dmx_text(e)
+
+    def dmx_arr_val(x):
+        e = Element('elem', 'DmElement')
+        e['texts'] = ['first', x, 'last']
+        return _dmx_text(e)
+
+    def not_name(x):         # the attribute called "name" is the element name, written elsewhere
+        return x + '_' if x.casefold() == 'name' else x
+
+    pos = {
+        'Keyvalues.export/value': (lambda x: kv_export(Keyvalues('name', x)), ident, kv, ident),
+        'Keyvalues.export/name': (lambda x: kv_export(Keyvalues(x, 'value')), ident, kv, ident),
+        'Keyvalues.export/block': (lambda x: kv_export(Keyvalues(x, [Keyvalues('k', 'v')])), ident, kv, ident),
+        'Keyvalues.serialise/value': (lambda x: Keyvalues('name', x).serialise(), ident, kv, ident),
+        'Keyvalues.serialise/name': (lambda x: Keyvalues(x, 'value').serialise(), ident, kv, ident),
+        'Keyvalues.serialise/block': (lambda x: Keyvalues(x, [Keyvalues('k', 'v')]).serialise(), ident, kv, ident),
+        'Entity.export/value': (lambda x: _ent_text(ent_with(keys={'classname': 'info_target', 'message': x})), ident, kv, ident),
+        'Entity.export/key': (lambda x: _ent_text(ent_with(keys={x: 'keyvalue'})), ident, kv, ident),
+        'Entity.export/comments': (lambda x: _ent_text(ent_with(keys={'classname': 'a'}, comments=x)), ident, kv,
+                                   lambda x: x or 'c'),          # an empty comment is not written at all
+        'EntityFixup.export/value': (fixup_build, lambda x: '$var ' + x, kv, ident),
+        'Side.export/material': (side_build, ident, kv, ident),
+        'Cordon.export/name': (cordon_build, ident, kv, ident),
+        'VisGroup.export/name': (vis_build, ident, kv, ident),
+        'BSP.write_ent_data/value': (bsp_val, ident, tk, ascii_only),      # the lump is ASCII bytes
+        'BSP.write_ent_data/key': (bsp_key, ident, tk, ascii_only),
+        'DMX.export_kv2/type': (lambda x: _dmx_text(Element('elem', x)), ident, tk, ident),
+        'DMX.export_kv2/name': (lambda x: _dmx_text(Element(x, 'DmElement')), ident, tk, ident),
+        'DMX.export_kv2/attr_name': (dmx_attr_name, ident, tk, not_name),
+        'DMX.export_kv2/attr_value': (dmx_attr_val, ident, tk, ident),
+        'DMX.export_kv2/array_value': (dmx_arr_val, ident, tk, ident),
+    }
+    for field in ('out', 'target', 'input', 'params'):
+        for comma in (False, True):
+            sep = ',' if comma else ESC_SEP
+            sn = 'comma' if comma else 'esc'
+            exp = (lambda x, field=field, sep=sep: _output_expect(field, x, sep))
+            pos[f'Output.as_keyvalue/{field}/{sn}'] = (
+                lambda x, field=field, comma=comma: _output(field, x, comma)[0].as_keyvalue(), exp, kv, ident)
+            pos[f'Entity.export/output.{field}/{sn}'] = (ent_out(field, comma), exp, kv, ident)
+            pos[f'BSP.write_ent_data/output.{field}/{sn}/asis'] = (bsp_out(field, comma, None), exp, tk, ascii_only)
+        # use_comma_sep forces the separator whatever the output says
+        pos[f'BSP.write_ent_data/output.{field}/forced-comma'] = (
+            bsp_out(field, False, True), (lambda x, field=field: _output_expect(field, x, ',')), tk, ascii_only)
+        pos[f'BSP.write_ent_data/output.{field}/forced-esc'] = (
+            bsp_out(field, True, False), (lambda x, field=field: _output_expect(field, x, ESC_SEP)), tk, ascii_only)
+    return pos
 
 
-WRITERS = ('Keyvalues.export', 'Keyvalues.serialise', 'Keyvalues.serialise(name)', 'Entity.export')
+_POS: dict = {}
+_TWIN: dict = {}
+
+
+def writer_line(writer: str, s: str) -> dict:
+    """The text the real writer produces with s in the given position, and where the token that
+    carries s must be: index and token count are those of the same line written with a harmless
+    probe string (escaping must not change the token structure of the line)."""
+    if not _POS:
+        _POS.update(positions())
+    build, expect, o, restrict = _POS[writer]
+    if writer not in _TWIN:
+        toks = toklib.tokenize(build(PROBE), o)['toks']
+        want = cps(expect(PROBE))
+        hits = [i for i, t in enumerate(toks) if t['t'] == 'STRING' and t['v'] == want]
+        if len(hits) != 1:
+            raise SystemExit(f'MACHINERY: probe line of {writer} has {len(hits)} probe tokens')
+        _TWIN[writer] = (hits[0] + 1, len(toks))
+    s = restrict(s)
+    idx, ntoks = _TWIN[writer]
+    return {'text': build(s), 'idx': idx, 'ntoks': ntoks, 's': s, 'tokval': expect(s), 'o': o}
+
+
+HOSTILE = ['"', '\\', 'path\\to\\thing', 'cr\rhere', 'Say("hello")', 'a\nb', 'tab\there', "it's", 'end\\', '\\"',
+           'a,b', '\r\n', '\\n', 'x" "y', '', '\v\b\f\a?/', 'q\\\n"z']
 
 
 def mode_lines(out: str) -> None:
-    """The string as a value (or name) in a line produced by a real writer, read back by the real
-    tokenizer with the options the corresponding parser uses."""
+    """The string in every position in which a real writer embeds escaped text, read back by the
+    real tokenizer with the options the corresponding parser uses."""
     rng = random.Random(2000 + hlib.seed())
-    n = 6000 if hlib.tier() == 'thorough' else 600
+    n = 1500 if hlib.tier() == 'thorough' else 120
     w = hlib.RecWriter(out)
-    for _ in range(n):
-        s = rand_string(rng)[:60]
-        for writer in WRITERS:
-            text, idx = writer_line(writer, s)
-            w.write(line_record(writer, text, idx, s, toklib.KV_OPTS))
-        sa = ascii_only(s)
-        text, idx = writer_line('BSP.write_ent_data', sa)
-        w.write(line_record('BSP.write_ent_data', text, idx, sa, toklib.TOK_DEFAULTS))
+    if not _POS:
+        _POS.update(positions())
+    strings = HOSTILE + [rand_string(rng)[:60] for _ in range(n)]
+    for s in strings:
+        for writer in sorted(_POS):
+            w.write(line_record(writer, writer_line(writer, s)))
     w.close()
-    print(json.dumps({'records': w.n}))
+    print(json.dumps({'records': w.n, 'positions': len(_POS), 'strings': len(strings)}))
 
 
 def mode_replay(path: str, out: str) -> None:
@@ -193,8 +344,7 @@ def mode_replay(path: str, out: str) -> None:
     elif r['k'] == 'embed':
         w.write(embed_record(uncps(r['pre']), uncps(r['s']), r['ml'], uncps(r['suf']), r['o']))
     else:
-        text, idx = writer_line(r['writer'], uncps(r['s']))
-        w.write(line_record(r['writer'], text, idx, uncps(r['s']), r['o']))
+        w.write(line_record(r['writer'], writer_line(r['writer'], uncps(r['field']))))
     w.close()
 
 
